@@ -150,20 +150,49 @@ func rulePodExist(c *Ctx, rule string) {
 		w := q.Escapes(nil, isExactly(r), isExactly(lookup), nil)
 		c.Check(w == nil, rule, "PodExist: every answer follows the API lookup", p.Pos(r), fn.Key(), "must-pass: entry → API lookup → return", "path: "+p.describePath(w))
 	}
-	var notFound []string
+	// the licence, built from the function's own syntax: some error variable is non-nil, some
+	// IsNotFound(...) test holds, or the pod is scheduled elsewhere
+	var errVars []types.Object
+	var conds []ast.Expr
+	seenV := map[types.Object]bool{}
 	ast.Inspect(fn.Decl.Body, func(nd ast.Node) bool {
-		if call, ok := nd.(*ast.CallExpr); ok && lastSeg(calleeName(info, call)) == "IsNotFound" {
-			notFound = append(notFound, exprString(call))
+		switch t := nd.(type) {
+		case *ast.Ident:
+			if v, ok := info.ObjectOf(t).(*types.Var); ok && !v.IsField() && !seenV[v] && v.Type().String() == "error" {
+				seenV[v] = true
+				errVars = append(errVars, v)
+			}
+		case *ast.CallExpr:
+			if lastSeg(calleeName(info, t)) == "IsNotFound" {
+				conds = append(conds, t)
+			}
+		case *ast.BinaryExpr:
+			if t.Op == token.NEQ || t.Op == token.EQL {
+				for _, side := range []ast.Expr{t.X, t.Y} {
+					if sel, ok := ast.Unparen(side).(*ast.SelectorExpr); ok && sel.Sel.Name == "NodeName" {
+						conds = append(conds, t)
+					}
+				}
+			}
 		}
 		return true
 	})
-	alts := append([]string{errVar + " != nil"}, notFound...)
-	_ = podVar
-	alts = append(alts, compTexts(fn, "NodeName", token.NEQ)...)
-	for _, eq := range compTexts(fn, "NodeName", token.EQL) {
-		alts = append(alts, "!("+eq+")")
-	}
-	c.ResultOnlyUnder(rule, "PodExist: false only for an error, NotFound or another node", fn, 0, false, alts)
+	_, _ = podVar, errVar
+	c.ResultOnlyUnderF(rule, "PodExist: false only for an error, NotFound or another node", fn, 0, false,
+		"some error != nil ∨ IsNotFound(…) ∨ pod.Spec.NodeName != k.nodeName", func(e *FactEngine) *Formula {
+			f := fF
+			for _, v := range errVars {
+				f = mkOr(f, mkNot(e.eqAtom(objID(v), "nil", []string{objID(v)})))
+			}
+			for _, x := range conds {
+				g := e.Cond(x)
+				if be, ok := x.(*ast.BinaryExpr); ok && be.Op == token.EQL {
+					g = mkNot(g)
+				}
+				f = mkOr(f, g)
+			}
+			return f
+		})
 }
 
 // C11.R4: podRequirePodENI — a pod that exists stops counting only for the listed reasons.
@@ -413,20 +442,29 @@ func ruleAnyFixedParks(c *Ctx, rule string) {
 	var seen []string
 	bad := ""
 	ast.Inspect(fn.Decl.Body, func(k ast.Node) bool {
-		is, ok := k.(*ast.IfStmt)
-		if !ok {
-			return true
+		var conds []ast.Expr
+		switch t := k.(type) {
+		case *ast.IfStmt:
+			conds = append(conds, t.Cond)
+		case *ast.SwitchStmt:
+			if t.Tag == nil {
+				for _, cc := range t.Body.List {
+					conds = append(conds, cc.(*ast.CaseClause).List...)
+				}
+			}
 		}
-		kind, why := quantOverFixed(p, fn, is.Cond, 0)
-		switch kind {
-		case "any":
-			alts = append(alts, exprString(is.Cond))
-			seen = append(seen, why)
-		case "none":
-			alts = append(alts, "!("+exprString(is.Cond)+")")
-			seen = append(seen, "negated: "+why)
-		case "all", "notall":
-			bad = "the test at " + p.Pos(is.Cond) + " is '" + kind + "' (" + why + ")"
+		for _, cond := range conds {
+			kind, why := quantOverFixed(p, fn, cond, 0)
+			switch kind {
+			case "any":
+				alts = append(alts, exprString(cond))
+				seen = append(seen, why)
+			case "none":
+				alts = append(alts, "!("+exprString(cond)+")")
+				seen = append(seen, "negated: "+why)
+			case "all", "notall":
+				bad = "the test at " + p.Pos(cond) + " is '" + kind + "' (" + why + ")"
+			}
 		}
 		return true
 	})
@@ -442,7 +480,11 @@ func ruleAnyFixedParks(c *Ctx, rule string) {
 		case len(alts) == 0:
 			c.Undec(rule, key, p.Pos(ps.st.Node), fn.Key(), "an existential test over Spec.Allocations", "no test of the function is recognised as a test on the Fixed allocations")
 		default:
-			c.RequireAnyOf(rule, key, fn, ps.st.Node, alts)
+			var under []string
+			for _, a := range alts {
+				under = append(under, ps.req(a))
+			}
+			c.RequireAnyOf(rule, key, fn, ps.st.Node, under)
 		}
 	}
 	c.Floor(rule, "Detaching stores in podDelete", 1, n)
